@@ -11,6 +11,7 @@ CONSTANTS
   UnitAt = "return"
   ULoop = 1
   EvalEffect = "readonly"
+  ShareEffect = "readonly"
   RADS = {8}
   GMS = {64,128}
   Slicing = "layer"
@@ -27,5 +28,6 @@ INVARIANT EvaluationKeepsStructure
 INVARIANT DensityIdealGas
 INVARIANT OneEntryPerLayer
 INVARIANT FitsInv
+PROPERTY ReadsAreRepeatable
 CONSTRAINT Emit
 CHECK_DEADLOCK FALSE
